@@ -1,6 +1,7 @@
 package pd
 
 import (
+	"bytes"
 	"fmt"
 	"strings"
 	"testing"
@@ -163,6 +164,7 @@ func c16Oracle(c c16Case) (v ev.Verdict) {
 		return v
 	}
 	var priors []*tglib.RanUeContext
+	authenticated := false
 	credsOf := func(ue *tglib.RanUeContext) (k, opc, op string) {
 		a := ue.AuthenticationSubs
 		if a.PermanentKey != nil {
@@ -238,8 +240,45 @@ func c16Oracle(c c16Case) (v ev.Verdict) {
 				return
 			}
 		}
+		// "each UE carries the configured K and OP/OPc" - also once it has used them: where the configured strings are
+		// credentials the derivation accepts (32 hexadecimal digits; OPc, or OP alone), the UEs run one authentication
+		// (as RegisterUE makes them) before their credentials are looked at again
+		hex32 := func(x string) bool {
+			if len(x) != 32 {
+				return false
+			}
+			for _, ch := range x {
+				if !(ch >= '0' && ch <= '9' || ch >= 'a' && ch <= 'f' || ch >= 'A' && ch <= 'F') {
+					return false
+				}
+			}
+			return true
+		}
+		if hex32(c.K) && ((hex32(c.OPC) && (c.OP == "" || hex32(c.OP))) || (c.OPC == "" && hex32(c.OP))) && len(c.MCC) == 3 && (len(c.MNC) == 2 || len(c.MNC) == 3) {
+			mnc3 := c.MNC
+			if len(mnc3) == 2 {
+				mnc3 = "0" + mnc3
+			}
+			for i, ue := range firstOfPopulation {
+				var autn [16]byte
+				autn[0], autn[15] = byte(i), 0x5a
+				rnd := bytes.Repeat([]byte{byte(0x30 + i)}, 16)
+				if _, site := ev.Guard(func() error {
+					ue.DeriveRESstarAndSetKey(ue.AuthenticationSubs, autn, rnd, "5G:mnc"+mnc3+".mcc"+c.MCC+".3gppnetwork.org", c.MNC, c.MCC)
+					return nil
+				}); site != "" {
+					break
+				}
+				authenticated = true
+			}
+		}
 		for _, ue := range firstOfPopulation {
 			if k, opc, op := credsOf(ue); k != c.K || opc != c.OPC || op != c.OP {
+				if authenticated {
+					v.Key = "CreateUE:credentials-changed-by-authenticating"
+					v.Err = fmt.Errorf("a UE configured with (K=%q, OPc=%q, OP=%q) carries (K=%q, OPc=%q, OP=%q) after one authentication", c.K, c.OPC, c.OP, k, opc, op)
+					return
+				}
 				v.Key = "CreateUE:credentials-changed-by-later-ues"
 				v.Err = fmt.Errorf("a UE of the population (K=%q, OPc=%q, OP=%q) carries (K=%q, OPc=%q, OP=%q) after the later UEs were created", c.K, c.OPC, c.OP, k, opc, op)
 				return
